@@ -210,6 +210,35 @@ func (g *gen) genRow(db string, t *MTable, text bool) []Val {
 		}
 		vals[i] = g.genVal(c, text, b)
 	}
+	// rows of "interesting" encoded sizes: the log record is 25 bytes longer,
+	// so these give record lengths around 128, 256 (low length byte zero), 384
+	if nvar > 0 && g.pf.Values != "plain" && g.r.Chance(0.06) {
+		targets := []int{102, 103, 104, 127, 128, 230, 231, 232, 255, 256, 257, 358, 359, 360, 399}
+		want := targets[g.r.Intn(len(targets))]
+		for i := 1; i < len(t.Cols); i++ {
+			if t.Cols[i].Type != TVarchar {
+				continue
+			}
+			if vals[i].IsNull() {
+				vals[i] = Str("")
+			}
+			cur := EncSize(t.Cols, vals)
+			switch {
+			case cur < want:
+				pad := "p"
+				if !text {
+					pad = string([]byte{byte(g.r.Intn(256))})
+					if pad == "'" || pad == "\\" {
+						pad = "q"
+					}
+				}
+				vals[i] = Str(string(vals[i].S) + strings.Repeat("p", want-cur-1) + pad)
+			case cur > want && len(vals[i].S) >= cur-want:
+				vals[i] = Str(string(vals[i].S[:len(vals[i].S)-(cur-want)]))
+			}
+			break
+		}
+	}
 	// boundary rows: exactly at the limit
 	if g.pf.Values == "extreme" && nvar > 0 && g.r.Chance(0.15) {
 		for i := 1; i < len(t.Cols); i++ {
